@@ -609,6 +609,7 @@ func (h *Hook) manager() {
 		if !func() bool {
 			h.cond.L.Unlock()
 			defer h.cond.L.Lock()
+			verifPoint("hook.beforeProc")
 			return h.proc()
 		}() {
 			// a send failed, try again in a moment
